@@ -80,6 +80,37 @@ pub fn token_of_buf(b: &[u8]) -> i64 {
     GARBAGE
 }
 
+/// The forms in which a writer can put a payload into the emitter's `FileBuf` (all must give
+/// the same bytes): 0 one `extend_from_slice`; 1 `push` byte by byte; 2 `io::Write::write_all`
+/// of two fragments and `flush`; 3 the `write!` macro (`io::Write::write_fmt`); 4 plain
+/// `io::Write::write` calls until everything is taken.
+pub fn write_form(buf: &mut emit_file::FileBuf, bytes: &[u8], form: i64) -> io::Result<()> {
+    use std::io::Write;
+    match form.rem_euclid(5) {
+        0 => buf.extend_from_slice(bytes),
+        1 => {
+            for b in bytes {
+                buf.push(*b);
+            }
+        }
+        2 => {
+            let (a, b) = bytes.split_at(bytes.len() / 2);
+            buf.write_all(a)?;
+            buf.write_all(b)?;
+            buf.flush()?;
+        }
+        3 => write!(buf, "{}", String::from_utf8_lossy(bytes))?,
+        _ => {
+            let mut rest = bytes;
+            while !rest.is_empty() {
+                let n = buf.write(&rest[..1.max(rest.len() / 2)])?;
+                rest = &rest[n..];
+            }
+        }
+    }
+    Ok(())
+}
+
 /// A lexical configuration: how abstract names are spelled.
 #[derive(Clone)]
 pub struct Lex {
@@ -343,7 +374,24 @@ impl VerifFilesystem for MemFs {
         s.record("list".into(), NONE, 0, res.into());
         if res == "ok" {
             let dir = s.dir.clone();
-            Ok(s.files.keys().map(|f| PathBuf::from(format!("{dir}/{f}"))).collect())
+            let mut v: Vec<PathBuf> = s.files.keys().map(|f| PathBuf::from(format!("{dir}/{f}"))).collect();
+            if s.names.values().any(|n| *n < 0 && *n != UNKNOWN) {
+                // (directories shared with siblings) entries a listing may also yield: one
+                // without a final name, and one whose name is not UTF-8 (it would be a member
+                // of the set if it were decoded lossily).  Nobody's files: to be skipped.
+                use std::os::unix::ffi::OsStringExt;
+                v.push(PathBuf::from(format!("{dir}/..")));
+                if let Some(own) = s.names.iter().find(|(_, n)| **n == 100).map(|(k, _)| k.clone()) {
+                    let mut b = own.into_bytes();
+                    if let Some(i) = b.iter().rposition(|c| *c == b'.') {
+                        b[i - 1] = 0xff;
+                    }
+                    let mut path = format!("{dir}/").into_bytes();
+                    path.extend(b);
+                    v.push(PathBuf::from(std::ffi::OsString::from_vec(path)));
+                }
+            }
+            Ok(v)
         } else {
             Err(ioerr(io::ErrorKind::Other, "injected"))
         }
@@ -1282,17 +1330,17 @@ pub mod inj {
                     // this event cannot be formatted: the writer fails, before any output or
                     // after all of the payload but its last byte and separator
                     if wfail_partial {
-                        buf.extend_from_slice(&bytes[..bytes.len() - 2]);
+                        write_form(buf, &bytes[..bytes.len() - 2], e)?;
                     }
                     return Err(io::Error::new(io::ErrorKind::Other, "cannot format"));
                 }
+                // the form in which the payload is handed over varies with the event
                 if e % 2 == 0 {
                     // this writer leaves the separator to the emitter for every second event
-                    buf.extend_from_slice(&bytes[..bytes.len() - 1]);
+                    write_form(buf, &bytes[..bytes.len() - 1], e / 2)
                 } else {
-                    buf.extend_from_slice(&bytes);
+                    write_form(buf, &bytes, e / 2)
                 }
-                Ok(())
             },
             cap,
         )
@@ -1605,14 +1653,19 @@ pub mod prod {
         pub final_tokens: Vec<Vec<i64>>,
         pub flush_failed: bool,
         pub tie: bool,
+        pub invalid: bool,
         pub retry: bool,
         pub ops: Vec<String>,
     }
 
     pub fn run_prod(case: &Value, entry: usize, scratch: &Path) -> ProdResult {
         let lexes = lexes();
-        let lex = lexes[entry % lexes.len()].clone();
-        let json = entry % 3 == 2;
+        // entry points / template forms: 0 set_with_writer, 1 set().writer(), 2 set() with the
+        // default JSON writer, 3 a template without extension (".log" is implied), 4 / 5 an
+        // invalid template (no file name / not UTF-8): the set must then touch nothing at all
+        let lex = lexes[if entry == 3 { 0 } else { entry % lexes.len() }].clone();
+        let json = entry == 2 || entry == 5;
+        let invalid = entry >= 4;
         let max_files = case["maxFiles"].as_u64().unwrap() as usize;
         let model_max = case["maxSize"].as_u64().unwrap() as usize;
         // the default writer's records are JSON_LEN bytes: the limits become "always over",
@@ -1625,9 +1678,27 @@ pub mod prod {
         for f in &lex.foreign {
             std::fs::write(dir.join(f), format!("foreign {f}\n")).unwrap();
         }
-        let template = dir.join(format!("{}.{}", lex.prefix, lex.ext));
+        // more that shares the directory: a file whose name is not UTF-8 (decoded lossily it
+        // would be the oldest member of the set) and a sub-directory named like the oldest member
+        use std::os::unix::ffi::OsStringExt;
+        let odd_file = dir.join(std::ffi::OsString::from_vec(
+            format!("{}.0000-00-00.00000000.0000000\u{0}.{}", lex.prefix, lex.ext).into_bytes().into_iter().map(|b| if b == 0 { 0xff } else { b }).collect(),
+        ));
+        let odd_dir = dir.join(format!("{}.0000-00-00.00000000.00000000.{}", lex.prefix, lex.ext));
+        if !lex.foreign.is_empty() {
+            std::fs::write(&odd_file, b"odd\n").unwrap_or_else(|e| tool_error(&format!("non-UTF-8 file name: {e}")));
+            std::fs::create_dir_all(&odd_dir).unwrap();
+            std::fs::write(odd_dir.join("keep"), b"keep\n").unwrap();
+        }
+        let odd_intact = |lex: &Lex| lex.foreign.is_empty() || (std::fs::read(&odd_file).ok().as_deref() == Some(&b"odd\n"[..]) && std::fs::read(odd_dir.join("keep")).ok().as_deref() == Some(&b"keep\n"[..]));
+        let template = match entry {
+            3 => dir.join(lex.prefix),
+            4 => dir.join(".."),
+            5 => dir.join(std::ffi::OsString::from_vec(vec![0xff, b'.', b'l', b'o', b'g'])),
+            _ => dir.join(format!("{}.{}", lex.prefix, lex.ext)),
+        };
         let spawn = || -> emit_file::FileSet {
-            let writer = |buf: &mut emit_file::FileBuf, evt: &emit::Event<&dyn emit::props::ErasedProps>| -> io::Result<()> {
+            let writer = move |buf: &mut emit_file::FileBuf, evt: &emit::Event<&dyn emit::props::ErasedProps>| -> io::Result<()> {
                 use emit::Props;
                 let e = evt.props().pull::<i64, _>("id").unwrap_or(0);
                 let fail = evt.props().pull::<i64, _>("fail").unwrap_or(0);
@@ -1640,14 +1711,13 @@ pub mod prod {
                 }
                 let bytes = ev_bytes(e);
                 if e % 2 == 0 {
-                    buf.extend_from_slice(&bytes[..bytes.len() - 1]);
+                    write_form(buf, &bytes[..bytes.len() - 1], e + entry as i64)
                 } else {
-                    buf.extend_from_slice(&bytes);
+                    write_form(buf, &bytes, e + entry as i64)
                 }
-                Ok(())
             };
-            let b = match entry % 3 {
-                0 => emit_file::set_with_writer(&template, writer, b"\n"),
+            let b = match entry {
+                0 | 3 | 4 => emit_file::set_with_writer(&template, writer, b"\n"),
                 1 => emit_file::set(&template).writer(writer, b"\n"),
                 _ => emit_file::set(&template),
             };
@@ -1732,6 +1802,9 @@ pub mod prod {
                     }
                 }
             }
+            if !odd_intact(&lex) {
+                iv.foreign_touched.push("(non-UTF-8 sibling / sub-directory)".to_string());
+            }
             for (name, new) in &now {
                 if !prev.contains_key(name) {
                     iv.created.push(name.clone());
@@ -1794,7 +1867,7 @@ pub mod prod {
             }
             flush_failed |= !iv.flushed;
             let changed = !(iv.removed.is_empty() && iv.created.is_empty() && iv.appended.is_empty() && iv.foreign_touched.is_empty());
-            if iv.kind == "fmtfail" && !changed {
+            if (iv.kind == "fmtfail" || invalid) && !changed {
                 continue; // the event was discarded as a whole: nothing to see
             }
             // the clock reading of this call: the period the real clock was in; the counter of
@@ -1838,7 +1911,7 @@ pub mod prod {
                 }
                 trace.push(call("sync", name_int(n), 0));
             }
-            trace.push(json!({"ev": "end", "res": if iv.flushed { "ok" } else { "noretry" }, "rest": []}));
+            trace.push(json!({"ev": "end", "res": if iv.flushed && !invalid { "ok" } else { "noretry" }, "rest": []}));
         }
         let mut final_tokens: Vec<(i64, Vec<i64>)> = prev
             .iter()
@@ -1851,7 +1924,7 @@ pub mod prod {
         let mut ticks: Vec<(&String, u64)> = parsed.values().map(|x| (&x.0, x.1)).collect();
         ticks.sort();
         let tie = ticks.windows(2).any(|w| w[0] == w[1]);
-        ProdResult { tie, trace, json, final_tokens: final_tokens.into_iter().map(|x| x.1).collect(), flush_failed, retry: p_start != p_end, ops }
+        ProdResult { invalid, tie, trace, json, final_tokens: final_tokens.into_iter().map(|x| x.1).collect(), flush_failed, retry: p_start != p_end, ops }
     }
 
     /// args: <cases.ndjson> <traces-bytes.ndjson> <traces-json.ndjson> <report.json> <scratch dir> <threads>
@@ -1885,7 +1958,11 @@ pub mod prod {
                             continue;
                         }
                         let case: Value = serde_json::from_str(text).unwrap_or_else(|e| tool_error(&format!("bad json: {e}")));
-                        for entry in 0..3 {
+                        for entry in 0..6 {
+                            // the extension-less and the invalid templates: every tenth case
+                            if entry >= 3 && i % 10 != entry {
+                                continue;
+                            }
                             let d = scratch.join(format!("c{i}-{entry}"));
                             let mut r = run_prod(&case, entry, &d);
                             let mut tries = 0;
@@ -1908,7 +1985,8 @@ pub mod prod {
         let mut index = Vec::new();
         let mut ops: BTreeMap<String, u64> = BTreeMap::new();
         let (mut runs, mut flush_failed, mut skipped, mut pred_mismatch) = (0u64, 0u64, 0u64, 0u64);
-        let entries = ["set_with_writer", "set().writer()", "set() default JSON writer"];
+        let entries = ["set_with_writer", "set().writer()", "set() default JSON writer", "template without extension",
+            "invalid template (no file name)", "invalid template (not UTF-8), default writer"];
         let mut mismatches: Vec<Value> = Vec::new();
         for (line, entry, r, case) in results.into_iter().flatten() {
             if r.retry {
@@ -1920,9 +1998,9 @@ pub mod prod {
             for o in &r.ops {
                 *ops.entry(o.clone()).or_default() += 1;
             }
-            let sid = line * 3 + entry;
+            let sid = line * 6 + entry;
             // level B's prediction of the final directory, files in name order (byte-sized runs only)
-            if !r.json && !r.tie {
+            if !r.json && !r.tie && !r.invalid {
                 let mut want: Vec<(i64, Vec<i64>)> = case["files"].as_array().unwrap().iter().map(|f| {
                     let mut t: Vec<i64> = f["syn"].as_array().unwrap().iter().map(|x| x.as_i64().unwrap()).collect();
                     t.extend(f["uns"].as_array().unwrap().iter().map(|x| x.as_i64().unwrap()));
